@@ -80,11 +80,12 @@ VARIABLES
   s2,          \* post-launch subscription: idle, pend (launch emission queued: will subscribe to the subject), done
   snaps,       \* snapshots in their trigger-pool hop (sequence in creation order)
   pipe,        \* snapshots behind the manual emitter / clock, FIFO, not yet filtered
-  outq,        \* filtered updates on their way to the subscriber, FIFO (an update or <<"completed">>)
+  outq,        \* filtered updates on their way to the subscriber, FIFO: <<"update", u, run generation of the snapshot>> or <<"completed">>
   fs,          \* StateFilter's memory: the last snapshot it saw
   fdone,       \* the filter stopped (take_while): manual emitter completed, clock disposed
   done,        \* the subscriber of stateUpdates received on_completed
-  cv,          \* consumer's view: last values of isAlive / isShutdown / engineExitReason seen in updates + run generation then
+  cv,          \* consumer's view: last values of isAlive / isShutdown / engineExitReason seen in updates + the run generation
+               \* (number of run() calls) of the snapshot that brought the last update
   lastU,       \* the update delivered by the last Out step (<<>> = none in this step)
   nkill, ntick,
   hist, obsq, ups    \* Quiet mode: environment actions so far, observations after each, updates since the last environment action
@@ -193,10 +194,10 @@ Push(ss) == snaps' = snaps \o ss
 -----------------------------------------------------------------------------
 (* environment *)
 
-(* Engine.run(), first call.  ComponentState.run() only refuses a shut-down component: run() on an engine that was killed *)
-(* before it ran is possible (the pipeline then finds the engine dead and sets "Killed" once more).                        *)
+(* Engine.run(), first call, on an engine that is alive (ASSUMPTION of this model: the controller does not run() a component *)
+(* whose engine was already killed; a kill that was called but not yet delivered is covered: DeliverInit with runGen > 0).  *)
 Run ==
-  /\ EnvOK /\ runGen = 0 /\ ~shut
+  /\ EnvOK /\ runGen = 0 /\ ~shut /\ exitR = "none"
   /\ runGen' = 1 /\ lp' = "sched" /\ rcode' = "-"
   /\ Record("Run")
   /\ UNCHANGED <<exitR, shut, proc, talive, treason, tkill, launched, finished, nlaunch, restarts, subjVars, lkind, sw, lreason, s2,
@@ -222,9 +223,8 @@ Kill ==
 Fire(kind) ==
   /\ EnvOK /\ lp = "armed"
   /\ IF exitR = "none" THEN lp' = "started" /\ lkind' = kind ELSE lp' = "closed" /\ UNCHANGED lkind
-  /\ rcode' = "-"
   /\ Record("Fire:" \o kind)
-  /\ UNCHANGED <<engineVars, subjVars, sw, lreason, s2, emitVars, nkill, ntick>>
+  /\ UNCHANGED <<engineVars, rcode, subjVars, sw, lreason, s2, emitVars, nkill, ntick>>
 
 (* Quiet mode only: the start value passes the gate, then kill() is called and delivered while the launch hop is still    *)
 (* queued (in the fine-grained model this is Fire, Kill, DeliverGate, Launch).  The task IS launched and killed afterwards. *)
@@ -286,9 +286,9 @@ Shutdown ==
 (* the periodic clock of _detailedState: a fresh stateDictionary goes straight into the FIFO part *)
 Tick ==
   /\ EnvOK /\ ~fdone /\ ntick < MaxTick
-  /\ pipe' = Append(pipe, Now) /\ ntick' = ntick + 1 /\ rcode' = "-"
+  /\ pipe' = Append(pipe, Now) /\ ntick' = ntick + 1
   /\ Record("Tick")
-  /\ UNCHANGED <<engineVars, subjVars, pipeVars, snaps, outq, fs, fdone, done, cv, lastU, nkill>>
+  /\ UNCHANGED <<engineVars, rcode, subjVars, pipeVars, snaps, outq, fs, fdone, done, cv, lastU, nkill>>
 
 -----------------------------------------------------------------------------
 (* internal steps (one rx hop each) *)
@@ -389,7 +389,7 @@ Filter ==
                THEN fdone' = TRUE /\ outq' = Append(outq, <<"completed">>) /\ UNCHANGED snaps
                ELSE /\ UNCHANGED fdone
                     /\ IF "isShutdown" \in F /\ s["isShutdown"] = V("T") THEN Push(<<Now>>) ELSE UNCHANGED snaps
-                    /\ outq' = IF F = {} THEN outq ELSE Append(outq, <<"update", UpdateOf(s, F)>>)
+                    /\ outq' = IF F = {} THEN outq ELSE Append(outq, <<"update", UpdateOf(s, F), s["runDate"][2]>>)
   /\ UNCHANGED <<engineVars, rcode, subjVars, pipeVars, done, cv, lastU, nkill, ntick, histVars>>
 
 (* the subscriber of engine.stateUpdates receives *)
@@ -403,7 +403,7 @@ Out ==
             /\ cv' = [alive |-> IF "isAlive" \in DOMAIN u THEN u["isAlive"][1] ELSE cv.alive,
                       shut |-> IF "isShutdown" \in DOMAIN u THEN u["isShutdown"][1] ELSE cv.shut,
                       reason |-> IF "engineExitReason" \in DOMAIN u THEN u["engineExitReason"][1] ELSE cv.reason,
-                      gen |-> runGen]
+                      gen |-> m[3]]
             /\ ups' = IF Quiet THEN Append(ups, u) ELSE ups
             /\ UNCHANGED done
   /\ UNCHANGED <<engineVars, rcode, subjVars, pipeVars, snaps, pipe, fs, fdone, nkill, ntick, hist, obsq>>
@@ -465,7 +465,7 @@ FirstDeadCarriesReason ==
 (* once a consumer saw isAlive=False no update says isAlive=True unless a restart happened in between (fifo only) *)
 NoResurrection ==
   [][(lastU' # <<>> /\ Len(outq') < Len(outq) /\ "isAlive" \in DOMAIN lastU'[1] /\ lastU'[1]["isAlive"][1] = "T" /\ cv.alive = "F")
-       => runGen > cv.gen]_vars
+       => cv'.gen > cv.gen]_vars
 
 (* STRONGER, NOT satisfied even in order (ExitInfoClobber): an update never reports engineExitReason None while the engine is dead *)
 ReasonNeverClobbered ==
@@ -486,7 +486,7 @@ DeadEventuallyKnown == (shut /\ exitR # "none") ~> (cv.alive = "F" \/ done)
 -----------------------------------------------------------------------------
 (* Quiet mode: the cases handed to the conformance driver *)
 
-EnvEnabled == \/ (runGen = 0 /\ ~shut) \/ nkill < MaxKill \/ lp = "armed" \/ (proc # 0 /\ talive)
+EnvEnabled == \/ (runGen = 0 /\ ~shut /\ exitR = "none") \/ nkill < MaxKill \/ lp = "armed" \/ (proc # 0 /\ talive)
               \/ (exitR # "none" /\ ~shut /\ (RestartGoes => runGen < MaxRun)) \/ (~fdone /\ ntick < MaxTick)
 EmitCase ==
   (Emit /\ Quiet /\ Quiescent /\ (Len(hist) = MaxEnv \/ ~EnvEnabled))
